@@ -959,3 +959,14 @@ Proof.
     destruct (column_value e t) as [d s]. inversion H; subst. simpl.
     apply Forall_app. split; assumption.
 Qed.
+
+(* known finding: a pointer-valued method with a tree type used as the column: declared `double**`, stored
+   through a cast to the bare name `double` *)
+Lemma pointer_column_store_witness :
+  exists e t,
+    (0 < t_depth (view t))%nat /\
+    column_value e t = ("double**", "COL = static_cast<double>(" +++ e +++ ");").
+Proof.
+  exists "r->m0()", (TTerm {| t_type := "float"; t_depth := 2; t_const := false; t_tree := Some "double" |}).
+  split; [simpl; lia|vm_compute; reflexivity].
+Qed.
